@@ -111,7 +111,9 @@ def run_tree(fn, params, mem, tls_names=(), max_steps=400):
                     raise NotModelled("ordered comparison")
                 if a[0] in ("opaque",) or b[0] in ("opaque",):
                     raise NotModelled("comparison of opaque data")
-                if a != b and NULL not in (a, b) and not (a[0] == "int" and b[0] == "int"):
+                if a != b and {a[0], b[0]} == {"fn", "sym"}:
+                    pass      # a symbolic handler compared with a concrete function: unequal here -- the case 'the registered handler IS that function' is a row of its own
+                elif a != b and NULL not in (a, b) and not (a[0] == "int" and b[0] == "int"):
                     # two different non-null symbols: the code distinguishes handler values other than by a null test
                     raise NotModelled("comparison of two non-null symbols %s %s" % (a, b))
                 r = (a == b)
